@@ -121,7 +121,11 @@ def run_case(kind, shared, o1, o2, symmetry, named, rng, one_list=False, dup=Fal
     # ---- dual table
     for k, (_, _, c) in enumerate(calls):
         c._dual_variable_value = 10.0 + k
-    duals = f.get_class_constraints_duals().get('cond')
+    try:
+        duals = f.get_class_constraints_duals().get('cond')
+    except Exception as e:       # noqa
+        fails.append(('duals.shape', 'get_class_constraints_duals raised %s: %s (a %d x %d table of constraints all holding a multiplier)' % (type(e).__name__, str(e)[:120], n1, n2)))
+        return desc, fails
     if duals is None or duals.shape != tab.shape or list(duals.columns) != list(tab.columns) or list(duals.index) != list(tab.index):
         fails.append(('duals.shape', 'dual table missing or of different shape / labels'))
     else:
